@@ -140,10 +140,18 @@ class RankSelection(SelectionFunction[T]):
         """
         random_value = randomness.next_float()
         bias = self.bias
-        return int(
-            len(population)
-            * ((bias - sqrt(bias**2 - (4.0 * (bias - 1.0) * random_value))) / 2.0 / (bias - 1.0))
-        )
+        size = len(population)
+        if bias == 1.0:
+            # A bias of 1.0 means uniform selection; it is the limit of the formula
+            # below, which itself would divide by zero.
+            position = random_value
+        else:
+            position = (
+                (bias - sqrt(bias**2 - (4.0 * (bias - 1.0) * random_value))) / 2.0 / (bias - 1.0)
+            )
+        # Rounding can yield a position of 1.0 for random values adjacent to 1.0, so
+        # keep the index inside the population.
+        return max(0, min(int(size * position), size - 1))
 
 
 class TournamentSelection(SelectionFunction[T]):
